@@ -61,6 +61,15 @@ func c03Docs(tier string) []*val.V {
 	return docs
 }
 
+// c03LeafDocs are deleted from as decoded only (no derivation: several operators rebuild a map by key text, which would give a
+// map with the same key twice - not a document): an integer key and a string key with the same text are two entries.
+func c03LeafDocs() []*val.V {
+	return []*val.V{fromJSONText(`{1: "a", "1": 1, "b": 0}`), fromJSONText(`{"0": 1, 0: 0, "b": [0]}`)}
+}
+
+// c03Text writes a document so that fromJSONText reads it back: JSON, with integer keys left unquoted.
+func c03Text(v *val.V) string { return v.YAMLFlow() }
+
 type c03Case struct {
 	Doc  string    `json:"doc"`
 	Pipe []string  `json:"pipeline"`
@@ -114,12 +123,14 @@ func c03Check(doc *val.V, pipe []string, sel *refsem.E) (kind, detail string) {
 func c03Run(c *fw.Ctx) error {
 	c16Init()
 	docs := c03Docs(c.Tier)
+	nDerived := len(docs)
+	docs = append(docs, c03LeafDocs()...)
 	sels := c03Selections()
 	maxDepth := 2
 	if c.Thorough() {
 		maxDepth = 3
 	}
-	c.Res.Bound = fmt.Sprintf("every state reached by <= %d of %d derivation operators from %d documents x %d selections", maxDepth, len(c03Ops), len(docs), len(sels))
+	c.Res.Bound = fmt.Sprintf("every state reached by <= %d of %d derivation operators from %d documents (plus 2 documents with an integer and a string key of the same text, as decoded) x %d selections", maxDepth, len(c03Ops), nDerived, len(sels))
 	type st struct{ pipe []string }
 	var order int64
 	for di, doc := range docs {
@@ -175,11 +186,11 @@ func c03Run(c *fw.Ctx) error {
 							}
 							order++
 							c.Violation(kind+"/after="+producer+"/del("+sel.String()+")", int64(len(s.pipe))*1e9+int64(doc.Size())*1e6+order%1e6,
-								c03Case{doc.JSON(), s.pipe, sel}, fmt.Sprintf("doc %s | %s | del(%s): %s", doc.JSON(), strings.Join(s.pipe, " | "), sel.String(), detail))
+								c03Case{c03Text(doc), s.pipe, sel}, fmt.Sprintf("doc %s | %s | del(%s): %s", c03Text(doc), strings.Join(s.pipe, " | "), sel.String(), detail))
 						}
 					}
 				}
-				if depth < maxDepth {
+				if depth < maxDepth && di < nDerived {
 					for _, op := range c03Ops {
 						next = append(next, st{append(append([]string{}, s.pipe...), op)})
 					}
